@@ -2206,6 +2206,15 @@ func (query *Query) exec() (result any, err error) {
 		if err != nil {
 			return nil, err
 		}
+		// what the select list left pending is resolved before the row is
+		// handed on, as for every other source: an enclosing query may read
+		// its columns by value
+		query.wg.Wait()
+		for i := 0; i < len(query.postProcessors); i++ {
+			if err := query.postProcessors[i](); err != nil {
+				return nil, err
+			}
+		}
 		if len(rs) == 0 {
 			return nil, nil
 		}
